@@ -86,6 +86,8 @@ def run(ctx):
                    'unknown spec of their own kind', 3)
     ctx.rule('M6', 'test_for_specials scans category_list in order, replaces the best match only '
                    'by a strictly longer one, and never exits early', 1)
+    ctx.rule('M9', 'closure under derivation: a derived database is built only through operations that accept '
+                   'every category name the source can hold (automatically generated names included)', 1)
     ctx.rule('M8', 'an attribute computed from other attributes of the database and remembered (a derived '
                    'cache such as a flattened lookup list) is re-computed or reset by every method that '
                    'changes one of the attributes it was computed from', 1)
@@ -214,6 +216,7 @@ def run(ctx):
             raise AnalysisError('anchor vanished: LatexContextDb.' + name)
         _check_copy_on_derive(ctx, m, name, fn)
 
+    _ADD_FN[0] = meths.get('add_context_category')
     _check_filtered(ctx, m, meths['filtered_context'])
 
     # ---------------------------------------------------------------- M5
@@ -786,6 +789,9 @@ def _frozen_set_before(fn, ret, objname):
         node = par
 
 
+_ADD_FN = [None]
+
+
 def _check_filtered(ctx, m, fn):
     loops = [n for n in iter_own(fn) if isinstance(n, ast.For)]
     loop = None
@@ -830,12 +836,37 @@ def _check_filtered(ctx, m, fn):
     for c in adds:
         placement = [k.arg for k in c.keywords if k.arg in ('prepend', 'insert_before',
                                                             'insert_after')]
-        first_ok = c.args and isinstance(c.args[0], ast.Name) and c.args[0].id == cat
-        ctx.decide('M4b', first_ok and not placement, m, c,
+        a0 = c.args[0] if c.args else kwarg(c, 'category')
+        # the category keeps its name; a reserved (automatically generated) name cannot be given
+        # explicitly, so it is passed as None (= "name it automatically") under a startswith test
+        guarded = False
+        if isinstance(a0, ast.IfExp):
+            t_ = a0.test
+            neg = isinstance(t_, ast.UnaryOp) and isinstance(t_.op, ast.Not)
+            tc = t_.operand if neg else t_
+            is_sw = isinstance(tc, ast.Call) and call_name(tc) == 'startswith' and \
+                isinstance(call_recv(tc), ast.Name) and call_recv(tc).id == cat
+            keep, auto = (a0.body, a0.orelse) if neg else (a0.orelse, a0.body)
+            guarded = is_sw and isinstance(keep, ast.Name) and keep.id == cat and \
+                isinstance(auto, ast.Constant) and auto.value is None
+        first_ok = (isinstance(a0, ast.Name) and a0.id == cat) or guarded
+        ctx.decide('M4b', bool(first_ok) and not placement, m, c,
                    'category re-added under its own name, appended in iteration order',
                    'filtered copy does not append each kept category under its own name in '
                    'order (placement keywords %s)' % placement,
                    construct='filtered_context: ' + short(c, 80))
+        # M9: closure under derivation -- add_context_category rejects reserved names
+        rejects = any(isinstance(r_, ast.Raise) and any(
+            pol and 'startswith' in unparse(t2) for t2, pol in atomic_facts(r_))
+            for r_ in iter_own(_ADD_FN[0])) if _ADD_FN[0] is not None else False
+        if rejects:
+            ctx.decide('M9', guarded, m, c,
+                       'automatically named categories are re-added with an automatic name',
+                       'filtered_context() re-adds every category of self.category_list by name through '
+                       'add_context_category(), which raises ValueError for the reserved automatic names '
+                       'that extended_with() creates: a database obtained by extension cannot be '
+                       'filtered ("derived databases can themselves be filtered and extended")',
+                       construct='filtered_context: reserved category names')
     if not adds:
         ctx.unknown('M4b', m, loop, 'no add_context_category call in the loop')
 
